@@ -14,7 +14,9 @@
            whitespace in front of an argument where the argument kind allows it,
       (e5) single-token mandatory arguments: one character ([\frac12]), a control
            sequence ([\textbf\alpha]: its own arguments are not parsed), a specials
-           sequence.
+           sequence,
+      (e6) a comment that ends with the input; a paragraph break followed by
+           indentation.
     Same conventions as the core grammar: whitespace is a FIELD of the item it
     precedes, [tree_of2] is in accumulator form (the collector's state after
     the items so far).
@@ -197,12 +199,21 @@ Fixpoint ok_item2 (cx : context) (ps : pstate) (ex : str) (i : item2) (fol : str
          | _ => true
          end
   | Cmt2 ws text post =>
-      ws_ok ws && negb (mem_c 10 text) && ws_ok post
-      && match post with 10%N :: _ => true | _ => false end
-      && negb (otest is_space (hd_error fol))
+      (* the comment text has no newline; the post-space is the newline and the whitespace
+         after it (not followed by more whitespace), or — stage (e6) — the comment ends
+         with the input *)
+      ws_ok ws && negb (mem_c 10 text)
+      && match post with
+         | [] => is_nil fol
+         | 10%N :: _ => ws_ok post && negb (otest is_space (hd_error fol))
+         | _ => false
+         end
   | Par2 ws mid =>
+      (* a whitespace run [ws newline mid newline] whose last newline is the last newline of
+         the whole whitespace run: what follows may be indented (stage (e6)) but the
+         whitespace in front of it has no newline; the context has the [\n\n] specials *)
       forallb is_space ws && negb (mem_c 10 ws) && forallb is_space mid
-      && negb (otest is_space (hd_error fol)) && par_spec_ok cx
+      && negb (mem_c 10 (fst (span is_space fol))) && par_spec_ok cx
   | Mac2 ws name post args =>
       ws_ok ws && ws_ok post && name_ok name post
       && match get_macro_spec cx name with
